@@ -90,9 +90,21 @@ package dnsutil
 //@ # ---- C06 / C19: SetEdns0 — UDP size = clamp(advertised, 512, 1232) (1232 without OPT); EVERY client option is
 //@ # dropped from the OPT that goes upstream; at most one option is put back: the policy-clamped copy of the client's
 //@ # ECS, and only for a client the policy allows
+//@ # C19 ("every client-supplied EDNS option is removed before any upstream query"): the options are stripped from ONE OPT
+//@ # record - the one IsEdns0 finds; every other OPT record is removed from the request before anything else, so none
+//@ # travels on untouched. What onlyThisOPT keeps is never an OPT other than the one it was told to keep.
+//@ func onlyThisOPT
+//@   modifies allelems(dns.RR)
+//@   loop 1 invariant 0 <= rangeidx && rangeidx <= len(extra) && len(out) <= rangeidx && cap(out) == cap(extra)
+//@   assert at append#1: !(dyntype(rr, *dns.OPT) && as(rr, *dns.OPT) != keep)
+//@   assert at return: result == out
+//@
 //@ func SetEdns0
 //@   requires req != nil
 //@   nosafety all
+//@   assert at call internal/dnsutil.onlyThisOPT#1: arg0 == req.Extra && arg1 == opt && opt != nil
+//@   assert at store dns.Msg.Extra#1: value == lastret("internal/dnsutil.onlyThisOPT") && target == req
+//@   assert at store dns.OPT.Option#1: calls("internal/dnsutil.onlyThisOPT") == 1
 //@   ensures msgOPT(req) != nil ==> result1 == ite(int(old(msgOPT(req).Hdr.Class)) < 512, 512, ite(int(old(msgOPT(req).Hdr.Class)) > 1232, 1232, int(old(msgOPT(req).Hdr.Class))))
 //@   ensures msgOPT(req) == nil ==> result1 == 1232
 //@   ensures result0 != nil
